@@ -74,9 +74,9 @@ def run(ctx, res):
     cases = [gen_null_case(ctx.rng) for _ in range(ctx.scale(200, 5000))]
     # NULL join keys on both sides (a NULL never matches, not even another NULL), over several source kinds
     from .c07 import gen_join_case
-    for _ in range(ctx.scale(60, 1500)):
+    for _ in range(ctx.scale(90, 2000)):
         c = gen_join_case(ctx.rng)
-        k = ctx.rng.choice(['csv', 'csv', 'json', 'parquet', 'sqlquery', 'sqltable', 'xml'])
+        k = ctx.rng.choice(['csv', 'csv', 'csv', 'csv', 'tsv', 'tsv', 'xlsx', 'json', 'parquet', 'sqlquery', 'sqltable', 'xml'])
         for s in c['sources']:
             s['kind'] = k
             s['cols'] = [x for x in s['cols']]
